@@ -69,6 +69,27 @@ def source_changes():
 BOOST = 3          # quick-tier budget multiplier when the tree under test differs from the validated record
 
 
+def private_miss(e):
+    """name of the PRIVATE rpylib attribute / function (leading underscore) whose absence made a HARNESS frame raise `e`, else None.
+    A correspondence probe may read private tables of the implementation; when a refactoring renames or removes one, that probe's
+    tie is unavailable on this tree — not an implementation failure and not an infrastructure error."""
+    if not isinstance(e, (AttributeError, ImportError)):
+        return None
+    m = re.search(r"has no attribute '(_[A-Za-z][A-Za-z0-9_]*)'|cannot import name '(_[A-Za-z][A-Za-z0-9_]*)'", str(e))
+    if not m or e.__traceback__ is None:
+        return None
+    tb = e.__traceback__
+    while tb.tb_next is not None:
+        tb = tb.tb_next
+    if not os.path.abspath(tb.tb_frame.f_code.co_filename).startswith(str(ROOT / "harness")):
+        return None                       # raised inside the implementation: a genuine failure of the code under test
+    return m.group(1) or m.group(2)
+
+
+class TieUnavailable(Exception):
+    """a probe of the harness needed a PRIVATE attribute / function of rpylib that the tree under test no longer has"""
+
+
 class Infra(Exception):
     """Infrastructure problem (exit 2) – never a verdict about the property."""
 
@@ -297,6 +318,17 @@ class Ctx:
         mirrors_model: for oracle failures inside a known-faulty region, whether the implementation's value still
         equals the model's (recorded) faulty value; False => never suppressed."""
         assert kind in ("oracle", "corr", "proof")
+        exc = sys.exc_info()[1]
+        priv = private_miss(exc) if exc is not None else None
+        if priv is not None:
+            # the harness itself tripped over a private name that this tree no longer has (see `private_miss`)
+            msg = f"tie unavailable: probe {probe} needs the private name {priv}, which this tree does not have"
+            if msg not in self.notes:
+                self.notes.append(msg)
+            self.branches[f"tie_unavailable:{probe}"] += 1
+            if not self.thorough and os.environ.get("VERIF_NO_BOOST") != "1":
+                self.boost = True
+            return
         self.failures.append({"kind": kind, "probe": probe, "cls": cls or {}, "input": inp,
                               "detail": detail, "mirrors_model": mirrors_model})
 
@@ -305,9 +337,16 @@ class Ctx:
         probe `<probe>.raises` (whether crashing violates the property is decided by the caller's cls/known list)."""
         try:
             return True, fn(*a, **k)
-        except Infra:
+        except (Infra, TieUnavailable):
             raise
         except Exception as e:  # noqa
+            priv = private_miss(e)
+            if priv is not None:
+                msg = f"tie unavailable: probe {probe} needs the private name {priv}, which this tree does not have"
+                if msg not in self.notes:
+                    self.notes.append(msg)
+                self.branches[f"tie_unavailable:{probe}"] += 1
+                raise TieUnavailable(msg) from None
             return False, e
 
     def close(self):
